@@ -201,6 +201,41 @@ pub fn main(args: &Args) {
                 r.count(&format!("enumerated_texts_{}", name), txts.len() as u64);
             }
         }
+        // long runs: a literal of m repeated characters (+ terminator) after a star against runs of n of them; the work
+        // of a correct matcher grows with n*m here, so any step budget or cut-off shows as a false negative
+        if shard == 0 || shard == 1 {
+            let unit: Vec<char> = if shard == 0 { vec!['a'] } else { vec!['\u{e9}'] };
+            for m in 1..=12usize {
+                for n in [0usize, 1, 2, 3, 5, 8, 12, 16, 22, 23, 30, 31, 46, 47, 64, 100, 200, 400] {
+                    for (pre, post, term) in [("", "", 'b'), ("/files/", ".txt", '-'), ("x", "", 'b')] {
+                        let mut p: Vec<char> = pre.chars().collect();
+                        p.push('*');
+                        for _ in 0..m {
+                            p.extend(unit.iter());
+                        }
+                        p.push(term);
+                        p.extend(post.chars());
+                        for tail_ok in [true, false] {
+                            let mut t: Vec<char> = pre.chars().collect();
+                            for _ in 0..n {
+                                t.extend(unit.iter());
+                            }
+                            t.push(if tail_ok { term } else { 'c' });
+                            t.extend(post.chars());
+                            check(&mut r, &p, &t, "long-runs");
+                            r.count("long_run_pairs", 1);
+                            // and a second star behind the literal
+                            let mut p2 = p.clone();
+                            p2.push('*');
+                            let mut t2 = t.clone();
+                            t2.extend("zz".chars());
+                            check(&mut r, &p2, &t2, "long-runs");
+                            r.count("long_run_pairs", 1);
+                        }
+                    }
+                }
+            }
+        }
         let mut rng = Rng::derive(seed, 1000 + shard as u64);
         let mut xs: Vec<(String, String, bool)> = Vec::new();
         for k in 0..nrand / nsh as u64 {
